@@ -95,6 +95,14 @@ CHECKS["C10"] = ("E2-sim",
   "within the bound, the peer too; both users see CancelReceived when nothing was lost, delivered or faulted before; the destination exists only after a reported complete delivery and then equals the source.",
   "The 'both report the cancel condition' clause is judged only on loss-free handshakes without a prior Finished/Fault indication. Unack-mode retention of an incomplete file by an EOF(NoError) is out of scope.",
   "DESIGN.md §5 C10")
+CHECKS["C19"] = ("E2-sim",
+  "suspend-at-every-ordinal enumeration x suspension lengths x single loss on the real daemons (virtual clock); trace oracle on the silence window, timer faults and completion after resume",
+  "A user Suspend at the sender or receiver when the link sees datagram k of either direction (every k, delay 0/1 ms), Resume 0.5 s .. 100 s after the Suspended indication. Family 'silence' "
+  "(suspended side: 1 s timers, peer: 400 s) checks that no Metadata/FileData/EOF/NAK/Finished leaves the suspended entity and no limit fault is declared between the indication (+pipeline slack) "
+  "and the resume request; family 'completion' (3 s timers, suspension up to 6 s, one lost datagram at every ordinal in acknowledged mode) checks that the transfer then completes exactly as "
+  "C02 demands; any later limit fault must have L*min(T) of un-suspended time behind it.",
+  "ACK/keep-alive during suspension tolerated; two PDUs already in the transport pipeline may still appear. Exhaustive over ordinals of the listed configurations only.",
+  "DESIGN.md §5 C19")
 NOT_YET = {}
 
 def main():
